@@ -181,7 +181,15 @@ func tiffSub(b []byte, cols int) []byte {
 	return o
 }
 
+// RawFault, when set, is handed the payload of every stream the document writer is about to encode (page content
+// parts, ToUnicode programs) and returns what is encoded instead: fault injection into what sits INSIDE a stream,
+// with filters, /Length and every offset consistent with the damaged payload.
+var RawFault func(raw []byte) []byte
+
 func encode(raw []byte, filter string) ([]byte, pdfw.Dict) {
+	if RawFault != nil {
+		raw = RawFault(append([]byte{}, raw...))
+	}
 	switch filter {
 	case "fl":
 		return pdfw.Deflate(raw), pdfw.Dict{{"Filter", pdfw.Name("FlateDecode")}}
@@ -304,6 +312,9 @@ func Build(L Layout, base [][]Item, rev2page1 []Item, rev3page []Item) ([]byte, 
 	// whose padding to whole rows is only harmless in content streams)
 	filtered := func(raw []byte) *pdfw.Stream {
 		if L.Filter == "flpng" || L.Filter == "fltiff" {
+			if RawFault != nil {
+				raw = RawFault(append([]byte{}, raw...))
+			}
 			return &pdfw.Stream{Data: raw}
 		}
 		data, d := encode(raw, L.Filter)
